@@ -28,7 +28,7 @@ ENGINES = [
      "serves_properties": ["C17"],
      "kind_free_text": "TLA+ declared result of read_n vs transcribed retry loop (TLC, all scripts within bounds); every "
      "checked configuration executed on the real code through five entry points; TLC trace validation"},
-    {"name": "pipe", "path": "specs/IovecPipe.tla specs/PipeTrace.tla specs/FootprintTrace.tla lib/engines/pipe.py "
+    {"name": "pipe", "path": "specs/IovecPipe.tla specs/OwningIovecImpl.tla specs/OwningIovecMC.tla specs/PipeTrace.tla specs/FootprintTrace.tla lib/engines/pipe.py "
      "harness/src/pipe.rs harness/src/footprint.rs",
      "serves_properties": ["C03", "C04", "C05", "C20", "C10"],
      "kind_free_text": "TLA+ A-spec of the OwningIovec as a FIFO byte pipe with deferred holes over run-list byte strings, "
@@ -68,28 +68,18 @@ STREAM_NOTE = ("Bounded: exhaustive for streams <= 5 (chunker) / <= 4 (reader) o
                "EINTR schedules; prepared arena fill states for the chunker). Hard I/O errors inside the chunker are outside "
                "the property (covered for read_n by C17). Judges other than chunk_judge are not driven.")
 
-PIPE_NOTE = ("Conformance level: every event of seeded random histories (400 x 60 operations quick / 6000 x 80 thorough, up to 3 live "
-             "objects, sizes around 64 / 256 / 4096, every producer and consumer method, placeholders filled in any order, clone/"
-             "take, arena flush/swap/reserve, anchored pushes, held AnchoredSlices with split/skip/clone) plus scripted corner "
-             "histories is validated by TLC against the A-spec; each history ends with fill-all, consume-all, drop-all. The "
-             "implementation-shaped I-spec of OwningIovec (slices/anchors/arena) is design work in progress: at present the design "
-             "level for this engine is the A-spec itself plus the SortedDeque/SlidingDeque I-specs it is built on (deque engine). "
-             "Trusts hook H2 (registry calls in Chunk::new/Drop; verif_projection is read-only), debug poison 0xFC, TLC, the harness "
-             "recording. Address reuse by the allocator can hide a dangling slice from the registry classification (content "
-             "comparison still applies). A process death of the harness (abort on an unsafe-precondition check, segfault) in a run is "
-             "recorded as a violation of C05 for that run.")
-
-TLV_NOTE = ("Bounded: all byte strings of <= 4 (5) words over 10 word values (0,1,2,3,4,8,12,65536,2^29,2^32-1) with 0..3 trailing bytes; "
-            "all lists of <= 3 (4) pairs over 3 tags x 4 value lengths; beyond that random strings / nested messages / long lists. "
-            "Words are compared as 16-bit halves and lengths as 20-bit limbs because TLC integers are 32-bit. The pair-count limit "
-            "(> 2^31 pairs) is not exercised. Values that only report a length (never written) are used for the i32::MAX boundaries.")
-
-ATOMIC_NOTE = ("Bounded: thread programs of 2-4 threads with <= 4 calls each; the design MC is exhaustive per program (RA and SC), the "
-               "exploration of the real code is an edge cover of one MC graph plus sampled schedules x reads-from choices. Memory "
-               "model: stores append to modification order (exact while writers are serialised by the lock), no out-of-thin-air / "
-               "load-buffering for relaxed accesses, no sequence wrap-around. Trusts hook H4 (stand-ins pass through to std when "
-               "no scheduler is registered), the harness's memory simulation (every recorded execution is re-checked for legality "
-               "by TLC against the TLA+ memory model; an illegal one is a tool error), TLC.")
+PIPE_NOTE = ("Design level: OwningIovecImpl.tla transcribes OwningIovec / GlobalDeque / ByteArena (slices, anchors, allocation cache, "
+             "chunk-size sequence, backref deque, merge rule, consume/consume_by_bytes, push_anchor, clone/take) with tiny constants "
+             "(SMALL=1, OPP=2, chunks <<4,8>>, sizes 1/2/3/5) and is model-checked in lockstep against the byte pipe: 1 object x 4 (6) "
+             "operations and 2 objects x 4 (5) operations; chunk liveness is derived from holders. Conformance: every edge of the "
+             "2-object graph is replayed on the real code with sizes scaled to 64 / 256 / 4096, plus seeded random histories (400 x 60 "
+             "operations quick / 6000 x 80 thorough, up to 3 live objects, every producer and consumer method, placeholders filled in "
+             "any order, clone/take, arena flush/swap/reserve, anchored pushes, held AnchoredSlices with split/skip/clone) and scripted "
+             "corner histories; every event is validated by TLC against the A-spec; each history ends with fill-all, consume-all, "
+             "drop-all. Trusts hook H2 (registry calls in Chunk::new/Drop; verif_projection is read-only), debug poison 0xFC, TLC, the "
+             "harness recording. read_n's partial release and swap_arena are driven on the real code but not in the I-spec. Address reuse "
+             "by the allocator can hide a dangling slice from the registry classification (content comparison still applies). A process "
+             "death of the harness (abort on an unsafe-precondition check, segfault) in a run is recorded as a violation of C05.")
 
 CHECKS = {
     "C19": {
